@@ -365,3 +365,32 @@ fn probe_chunk_nonce_layout_and_distinctness() {
         }
     }
 }
+
+/// C07: every archive gets a fresh symmetric key, nonce and ephemeral key pair, whatever the ORDER in which configurations are
+/// created and turned into headers (configs first then headers back to back, or alternately), on one thread
+#[test]
+fn probe_fresh_secrets_whatever_the_call_order() {
+    use x25519_dalek::{PublicKey, StaticSecret};
+    let rcpt = PublicKey::from(&StaticSecret::from([5u8; 32]));
+    let mk = || { let mut c = EncryptionConfig::default(); c.ecc_keys.push(rcpt); c };
+    // configs first, then the headers back to back
+    let (c1, c2, c3) = (mk(), mk(), mk());
+    let (p1, p2, p3) = (c1.to_persistent().unwrap(), c2.to_persistent().unwrap(), c3.to_persistent().unwrap());
+    // alternately
+    let c4 = mk(); let p4 = c4.to_persistent().unwrap();
+    let c5 = mk(); let p5 = c5.to_persistent().unwrap();
+    // same config asked twice (two writers from one configuration value are not possible through the API, but the function is public)
+    let p6 = c5.to_persistent().unwrap();
+    let keys = [c1.key, c2.key, c3.key, c4.key, c5.key];
+    let nonces = [c1.nonce, c2.nonce, c3.nonce, c4.nonce, c5.nonce];
+    // the ephemeral public key is the first field (32 bytes) of the serialised recipients section
+    let epk = |p: &EncryptionPersistentConfig| -> Vec<u8> { bincode::serialize(&p.multi_recipient).unwrap()[..32].to_vec() };
+    let pubs = [epk(&p1), epk(&p2), epk(&p3), epk(&p4), epk(&p5), epk(&p6)];
+    for i in 0..keys.len() { for j in 0..i {
+        assert!(keys[i] != keys[j], "archives {j} and {i} share their symmetric key");
+        assert!(nonces[i] != nonces[j], "archives {j} and {i} share their nonce prefix");
+    } }
+    for i in 0..pubs.len() { for j in 0..i {
+        assert!(pubs[i] != pubs[j], "headers {j} and {i} carry the same ephemeral public key (same wrapping key and nonce for two archive keys)");
+    } }
+}
